@@ -4,6 +4,7 @@ package c22
 
 import (
 	"fmt"
+	"sort"
 	"strconv"
 
 	"github.com/gauss-project/aurorafs/pkg/boson"
@@ -22,7 +23,11 @@ func (prop) Rule() string {
 		"6-40 peers placed in 1-8 leading bins (sometimes scattered up to bin 31, 0-7 peers per bin): inbound (forced or not) and " +
 		"outbound connects, disconnects, Reachable(public/private/unknown) with per-case reachability 0/30/70/100 % (whole bins left " +
 		"unreachable in 1/4 of cases), SetRadius 0..31 (rarely up to 40), each followed now and then by depth/state/bins/depthx " +
-		"observations; fixed regression cases first (the DESIGN §7 layout 0:4r 1:1u 2:4r 3:3r and the stale-depth history). " +
+		"observations; about 1 churn event in 60 (and one per case in 1/4 of the cases) is a `racerecalc n ev0 ev1..` op: a connect / disconnect / " +
+		"Reachable / SetRadius event whose depth recalculation is parked at its n-th filter call (n up to the number of connected peers + 3, " +
+		"late positions preferred) while 1-3 other events (SetRadius to 0..3, disconnects of connected peers, Reachable(private), connects) " +
+		"are fired from a second goroutine; fixed regression cases first (the DESIGN §7 layout 0:4r 1:1u 2:4r 3:3r, the stale-depth history, " +
+		"and the `fix-race-*` overlaps of a parked Reachable/Disconnected/Connected with SetRadius / two disconnects / a private peer). " +
 		"Non-trivial: at least 4 connect events and at least one observation; distinct by op-list hash."
 }
 
@@ -74,6 +79,36 @@ func (prop) Gen(r *core.Rand, tier string) []core.Case {
 	ops = layout(fr, base8, 5, [][2]int{{1, 0}, {2, 0}, {0, 0}, {3, 0}, {3, 0}})
 	cs = append(cs, core.Case{ID: "fix-empty-bin-quick1", NT: true, Ops: append(ops, "depth", "radius 0", "depth", "radius 1", "depth", "depthx 1")})
 	cs = append(cs, core.Case{ID: "fix-nokad", NT: false, Ops: []string{"depth", "conn 0011223344556677 1", "radius 3", "state", "frobnicate"}})
+	// overlapping notifications (seeded change C22-1: recalculation outside depthMu writes a stale depth back).
+	// bins 0..3 hold 4/4/4/3 reachable peers: depth 3, radius 31; 18 filter calls per recalculation
+	// (15 in the saturation scan, 3 in the candidate scan).
+	{
+		ops = layout(fr, base8, 20, [][2]int{{4, 0}, {4, 0}, {4, 0}, {3, 0}})
+		var deep []string // the three bin-3 peers
+		for _, o := range ops[len(ops)-6:] {
+			if o[:5] == "conn " {
+				deep = append(deep, o[5:5+16])
+			}
+		}
+		first := ops[1][5 : 5+16] // a bin-0 peer
+		cp := func(extra ...string) []string { return append(append([]string{}, ops...), extra...) }
+		cs = append(cs, core.Case{ID: "fix-race-reach-vs-radius", NT: true, Ops: cp("depth",
+			"racerecalc 1 reach:"+first+":pub radius:1", "depth", "state", "depthx 5")})
+		cs = append(cs, core.Case{ID: "fix-race-reach-vs-2disc", NT: true, Ops: cp("depth",
+			"racerecalc 18 reach:"+first+":pub disc:"+deep[0]+" disc:"+deep[1], "depth", "state", "depthx 6")})
+		cs = append(cs, core.Case{ID: "fix-race-disc-vs-radius-late", NT: true, Ops: cp(
+			"racerecalc 12 disc:"+first+" radius:0 radius:2", "state")})
+		cs = append(cs, core.Case{ID: "fix-race-conn-vs-private", NT: true, Ops: cp(
+			"racerecalc 17 conn:"+hx(kadh.AddrInBin(fr, base8, 0))+":1 reach:"+deep[2]+":priv", "depth", "depthx 9")})
+		cs = append(cs, core.Case{ID: "fix-race-out-vs-force-radius", NT: true, Ops: cp(
+			"racerecalc 16 out:"+hx(kadh.AddrInBin(fr, base8, 1))+":full force:"+deep[0]+" radius:2 disc:"+deep[1], "state", "bins")})
+		cs = append(cs, core.Case{ID: "fix-race-radius-parked", NT: true, Ops: cp(
+			"racerecalc 3 radius:2 reach:"+deep[0]+":unk disc:"+deep[1], "state")})
+		cs = append(cs, core.Case{ID: "fix-race-degenerate", NT: true, Ops: cp(
+			"racerecalc 500 reach:"+first+":pub radius:1", "racerecalc 1 force:"+first+" radius:1", "racerecalc 0 radius:1", "racerecalc 2",
+			"racerecalc 2 radius:256", "racerecalc 02 radius:1", "racerecalc 1 conn:"+first+":0 conn:"+first+":0", "state")})
+	}
+	cs = append(cs, core.Case{ID: "fix-race-boot", NT: false, Ops: []string{"init " + hx(base8) + " 20 boot -", "racerecalc 1 radius:1 radius:2", "depth"}})
 
 	for i := 0; i < n; i++ {
 		c := core.Case{ID: fmt.Sprintf("g%d", i)}
@@ -186,8 +221,22 @@ func (prop) Gen(r *core.Rand, tier string) []core.Case {
 		}
 		observe()
 		// phase 2: churn
+		raceAt := -1
+		if r.Chance(25) {
+			raceAt = r.Intn(nev)
+		}
 		for k := 0; k < nev; k++ {
 			a := uni[r.Intn(len(uni))]
+			if k == raceAt || r.Intn(60) == 0 {
+				if r.Chance(50) {
+					c.Ops = append(c.Ops, "radius 31") // let the depth take its natural value first
+				}
+				c.Ops = append(c.Ops, raceOp(r, uni, connected, binOf))
+				if r.Chance(60) {
+					observe()
+				}
+				continue
+			}
 			switch r.Intn(12) {
 			case 0, 1:
 				c.Ops = append(c.Ops, "disc "+hx(a))
@@ -234,6 +283,66 @@ func (prop) Gen(r *core.Rand, tier string) []core.Case {
 	return cs
 }
 
+// raceOp builds one `racerecalc` line.  `connected` is the generator's rough idea of who is
+// connected (phase 1); it only steers the choice, any line is valid in any state.
+func raceOp(r *core.Rand, uni [][]byte, connected map[string]bool, binOf map[string]int) string {
+	var conn [][]byte
+	for _, a := range uni {
+		if connected[string(a)] {
+			conn = append(conn, a)
+		}
+	}
+	if len(conn) == 0 {
+		conn = uni
+	}
+	// the (up to) four deepest connected peers: removing them or making them private moves the candidate bin
+	deep := append([][]byte{}, conn...)
+	sort.SliceStable(deep, func(i, j int) bool { return binOf[string(deep[i])] > binOf[string(deep[j])] })
+	if len(deep) > 4 {
+		deep = deep[:4]
+	}
+	pick := func(l [][]byte) string { return hx(l[r.Intn(len(l))]) }
+	n := r.Range(1, len(conn)+3)
+	if r.Chance(50) && len(conn) > 4 {
+		n = r.Range(len(conn)-3, len(conn)+3) // near the end of the saturation scan / inside the candidate scan
+	}
+	var ev0 string
+	switch r.Intn(8) {
+	case 0, 1, 2:
+		ev0 = "reach:" + pick(conn) + ":pub"
+	case 3:
+		ev0 = "reach:" + pick(conn) + ":" + []string{"priv", "unk"}[r.Intn(2)]
+	case 4:
+		ev0 = "disc:" + pick(conn)
+	case 5:
+		ev0 = "conn:" + pick(uni) + ":" + strconv.Itoa(r.Intn(2))
+	case 6:
+		ev0 = "out:" + pick(uni) + ":full"
+	default:
+		ev0 = "radius:" + strconv.Itoa(r.Range(0, 31))
+	}
+	line := "racerecalc " + strconv.Itoa(n) + " " + ev0
+	for m := r.Range(1, 3); m > 0; m-- {
+		switch r.Intn(10) {
+		case 0, 1, 2:
+			line += " radius:" + strconv.Itoa(r.Range(0, 3))
+		case 3, 4:
+			line += " disc:" + pick(deep)
+		case 5:
+			line += " disc:" + pick(conn)
+		case 6:
+			line += " force:" + pick(deep)
+		case 7:
+			line += " reach:" + pick(deep) + ":priv"
+		case 8:
+			line += " conn:" + pick(uni) + ":1"
+		default:
+			line += " radius:" + strconv.Itoa(r.Range(0, 31))
+		}
+	}
+	return line
+}
+
 func (prop) New() core.Runner { return kadh.NewRunner(oracle) }
 
 // oracle evaluates the clauses of C22 directly on the implementation after every op.
@@ -249,6 +358,11 @@ func oracle(ctx *core.Ctx, r *kadh.Runner, op []string, out string) {
 	pre := ""
 	if r.StaleReach {
 		pre = "stale-"
+	}
+	if op[0] == "racerecalc" {
+		// the state is quiescent (every goroutine of the op has been joined); a failure here means
+		// overlapping notifications left a depth that is not the one of the final set / radius
+		pre = "race-"
 	}
 	quick := r.T.Quick
 	n, failed := 0, false
